@@ -354,20 +354,6 @@ proof fn lemma_kzg_nonhiding(g: FS, c: FS, h: FS, b: FS, z: FS, w: FS, pz: FS)
 
 // ======================= C02: every part of the statement is pinned by an accepting check =======================
 // (stronger than the property: no honesty assumption on the proof; uses only the field axioms)
-proof fn lemma_sub_cancel_left(a: FS, x: FS, y: FS)
-    requires f_sub(a, x) == f_sub(a, y)
-    ensures x == y
-{
-    broadcast use ring_axioms;
-    assert(f_add(f_neg(x), a) == f_add(f_neg(y), a));
-    lemma_add_cancel(f_neg(x), f_neg(y), a);
-    lemma_neg_neg(x); lemma_neg_neg(y);
-}
-proof fn lemma_sub_cancel_right(a: FS, b: FS, k: FS)
-    requires f_sub(a, k) == f_sub(b, k)
-    ensures a == b
-{ lemma_add_cancel(a, b, f_neg(k)); }
-
 //@lemma props=C02
 pub proof fn lemma_kzg10_value_unique(vk: &VerifierKey, comm: &Commitment, point: Fr, v1: Fr, v2: Fr, proof: &Proof)
     requires vk.g@ != f_zero(), vk.h@ != f_zero(),
